@@ -325,7 +325,7 @@ func (comp) Gen(prop string, rng *rand.Rand, tier string) *core.History {
 			g.kind += 3
 		}
 	}
-	g.max = core.Pick(rng, []int{1, 2, 2, 3, 3, 5})
+	g.max = core.Pick(rng, []int{1, 2, 2, 3, 3, 5, 1, 2, 3, 5, 0, -1}) // MaxBatchSize <= 0: every write is flushed at once
 	g.nsh = core.Pick(rng, []int{2, 3, 4, 5})
 	if prop == "C19" {
 		g.nsh = core.Pick(rng, []int{2, 3, 4, 5, 7, 8})
@@ -358,7 +358,7 @@ func (comp) Gen(prop string, rng *rand.Rand, tier string) *core.History {
 	for i, k := range g.alpha {
 		toks[i] = core.B(k)
 	}
-	g.h.SetConfig(core.N(uint64(g.kind)), core.N(uint64(g.max)), core.N(uint64(g.nsh)), core.N(uint64(delay)), core.L(toks...))
+	g.h.SetConfig(core.N(uint64(g.kind)), core.I(int64(g.max)), core.N(uint64(g.nsh)), core.N(uint64(delay)), core.L(toks...))
 
 	cycleW := 6
 	if prop == "C09" {
